@@ -405,6 +405,11 @@ func (d *PathDecoder) collectInferredReferenceTargetsForBody(addr lang.Address, 
 		collectLocalAddr = false
 		content          = ast.DecodeBody(body, bodySchema)
 	)
+	if bodySchema == nil {
+		// nested block without body schema
+		return refs
+	}
+
 	if bAddrSchema.DependentBodySelfRef || bAddrSchema.BodySelfRef {
 		if selfRefBodyRangePtr == nil {
 			// We don't get body range for JSON here
